@@ -31,7 +31,8 @@ ASSUMPTIONS = [
     "typed domain: counts are Python ints (no bools/floats), memory/time/partition are str or None, "
     "parallelization_mode is a str, extra_args maps str to int or str; callable resources are out of scope",
     "ASCII strings only (Python's \\d and str.upper are Unicode aware: e.g. Arabic-Indic digits are accepted by the code)",
-    "memory strings have <= 6 significant digits, so the float arithmetic of the real _convert_to_gb cannot order two "
+    "generated memory strings have <= 6 significant digits (mutated ones, used only for constructor calls, a few "
+    "more), so the float arithmetic of the real _convert_to_gb cannot order two "
     "different exact sizes wrongly (relative gap >= 1e-6 vs. float error ~1e-16); the model uses exact rationals. "
     "Equal sizes written differently may be ordered either way by the floats: combine_max results are therefore "
     "observed by exact size only",
@@ -382,7 +383,7 @@ def gen_operands(rng, n):
     return ops
 
 
-def gen_kw(rng, r):
+def gen_kw(rng):
     keys = rng.sample(FIELDS + ["parallelization_mode", "extra_args"], rng.choice([0, 1, 1, 2, 3]))
     other = rng.sample(XKEYS + ["zz", "foo"], rng.choice([0, 1, 1, 2]))
     kw = []
@@ -433,7 +434,7 @@ CORNER += [{"kind": "new", "a": {**_BLANK, "time": t}} for t in EDGE_TIME]
 
 
 def generate(rng, tier, mult):
-    n = (120 if tier == "quick" else 5000) * mult
+    n = (120 if tier == "quick" else 3500) * mult
     cases = list(CORNER)
     for _ in range(n):
         a = gen_valid(rng, rich=True)
@@ -444,9 +445,9 @@ def generate(rng, tier, mult):
         cases.append({"kind": "combine", "rs": gen_operands(rng, k)})
         cases.append({"kind": "combine", "rs": gen_operands(rng, rng.choice([2, 3]))})
         r = gen_valid(rng)
-        cases.append({"kind": "update", "r": r, "kw": gen_kw(rng, r)})
+        cases.append({"kind": "update", "r": r, "kw": gen_kw(rng)})
         r = gen_valid(rng)
-        cases.append({"kind": "update", "r": r, "kw": gen_kw(rng, r)})
+        cases.append({"kind": "update", "r": r, "kw": gen_kw(rng)})
         d = gen_valid(rng) if rng.random() < 0.85 else None
         cases.append({"kind": "with_defaults", "r": gen_valid(rng), "d": d})
         cases.append({"kind": "maybe", "r": gen_valid(rng) if rng.random() < 0.75 else None,
